@@ -756,11 +756,15 @@ def _parse_source_for_lambda(
     start_token = None
     source, lambda_line = _get_sourcelines(ast_source)
     t_stream = None
+    # A lambda can sit on the line of the (one-line) function that encloses it: that `def` is
+    # not what we are looking for.
+    is_lambda = getattr(ast_source, "__name__", None) == "<lambda>"
+    start_keywords = ["lambda"] if is_lambda else ["def", "lambda"]
     while func_name is None:
         # Setup the tokenizer
         t_stream = _token_runner(source, lambda_line)
 
-        func_name, start_token = t_stream.find_identifier(["def", "lambda"])
+        func_name, start_token = t_stream.find_identifier(start_keywords)
 
         if start_token is None:
             return None
